@@ -48,6 +48,10 @@ CLAIMED["C05"] = dict(engine="schemasim", design="DESIGN.md §5 C05",
 CLAIMED["C17"] = dict(engine="schemasim", design="DESIGN.md §5 C17 (SQLite part only)",
    text="For every plan the walk applies successfully: reported reversible only if every schema change has reverse statements; for reversible plans the down sections of all five sqltool formatters are exactly the reverse statements in reverse order, and executing them on the real database restores the starting schema and catalog. MySQL/PostgreSQL are not claimed.",
    note=_walk_note, technique="deterministic simulation: up/down executed on history-reached states of the seeded walk, tape shrinking + exact replay")
+CLAIMED["C18"] = dict(engine="clisim", design="DESIGN.md §5 C18",
+   text="Seeded operation sequences evolve a migration directory (files derived by `migrate diff` and hand-written destructive/additive/temporary-object forms); `migrate lint --latest N` of the real CLI is compared with a reference model of which tables and non-virtual columns existed before each file: every destructive file gets DS102/DS103 on the causing statement and a failing exit status, additive and temporary-object files get none.",
+   note="No fault or schedule dimension exists in this property; this check uses the operation-sequence / reference-model half of the technique only. SQLite only.",
+   technique="deterministic simulation (operation sequences vs reference model, no fault dimension): seeded directory histories against the real CLI, tape shrinking + exact replay")
 
 NOT_BUILT = {
  "C01": "not built yet in this tree (planned claim, DESIGN \u00a75); listed here so that every unclaimed property has an entry",
